@@ -261,6 +261,8 @@ def run(cx):
     run_hist(cx, grid, "g", hashes)
     rng = cx.sub_rng("yl")
     run_hist(cx, [cc.gen_yl_history(rng) for _ in range(cx.n(700, 15000))], "r", hashes)
+    rng = cx.sub_rng("yldev")
+    run_hist(cx, [cc.gen_yl_dev_history(rng) for _ in range(cx.n(250, 6000))], "d", hashes)
     jenkins(cx)
     real_modules(cx)
     cx.sample(hs[0].spec()[:300])
